@@ -68,7 +68,13 @@ func (cs crashsim) Gen(prop, tier string, ts *sim.Tapes) *Case {
 		budget = 0
 	}
 	c.Params["crash_budget"] = budget
-	if prop == "C01" && t.Chance(1, 5) {
+	if t.Chance(1, 6) {
+		// a commit in the middle of the history fails by an I/O error that leaves the committed state untouched
+		// (a data write, the data sync, or a torn meta write); the history goes on. What the failure leaves behind
+		// is judged by the crash oracle (C01) / the page-set monitor (C06) of the commits that follow.
+		c.Params["mid_fault"] = 1 + t.Pick(3, 2, 2) // 1 write eio, 2 data-sync eio, 3 meta write torn before its checksum
+		c.Params["mid_fault_k"] = t.Intn(4)
+	} else if prop == "C01" && t.Chance(1, 5) {
 		// the history ends with a commit one of whose syncs fails (nothing becomes durable by a failed sync):
 		// a commit that is nevertheless acknowledged must survive every crash state that follows
 		c.Params["sync_fault"] = 1 + t.Pick(1, 2) // 1: the data sync fails, 2: the sync after the meta write
@@ -206,6 +212,13 @@ func (cs crashsim) Run(c *Case, dir string) (out *Outcome) {
 		}
 		beginAt = -1
 	}
+	// mid-history fault variant
+	midStep := -1
+	if c.Params["mid_fault"] > 0 {
+		if ws := writeSteps(c.Prog); len(ws) > 1 {
+			midStep = ws[int(c.Run)%(len(ws)-1)] // never the last one: something must follow
+		}
+	}
 	// sync-fault variant: the last committing step gets a failing fdatasync and ends the history
 	faultStep := -1
 	if c.Params["sync_fault"] > 0 {
@@ -219,6 +232,58 @@ func (cs crashsim) Run(c *Case, dir string) (out *Outcome) {
 	for i := range c.Prog.Steps {
 		Tick()
 		st := &c.Prog.Steps[i]
+		if i == midStep {
+			disk.PageSize = ps
+			switch c.Params["mid_fault"] {
+			case 1:
+				disk.Plan = &sim.FaultPlan{K: c.Params["mid_fault_k"], Kind: "eio", Only: "write"}
+			case 2:
+				disk.Plan = &sim.FaultPlan{K: 0, Kind: "eio", Only: "fdatasync"}
+			default:
+				disk.Plan = &sim.FaultPlan{Kind: "short72", Only: "metawrite"}
+			}
+			mark := e.OnBegin
+			e.OnBegin = func(txid int) { mark(txid); disk.Arm(true) }
+			e.TolerateErr = true
+			fc := e.FileChecks
+			e.FileChecks = false
+			before := e.LastTxid
+			e.RunTx(st.Tx)
+			disk.Arm(false)
+			disk.Plan = nil
+			e.OnBegin = mark
+			e.TolerateErr = false
+			if disk.Fired != "" {
+				out.fault("commit-failure-mid-history:"+disk.FiredOp, 1)
+				// from here on the crash oracle / the monitor judge what the failed commit left behind
+				// (the in-run accounting checks belong to C07/C08)
+				e.AllowInvalidMeta = true
+				if e.LastErr == nil {
+					out.probe("mid-history-fault-did-not-fail-the-commit", 1)
+				}
+				if c.Prop == "C06" {
+					// the monitor needs the page sets of every later version
+					e.FileChecks = fc
+					if fc {
+						e.CheckFile("failed commit (" + disk.FiredOp + ")")
+					}
+				}
+			} else {
+				e.FileChecks = fc
+				if e.LastTxid != before {
+					acks = append(acks, ack{len(disk.Log), e.LastTxid})
+				}
+				if fc {
+					e.CheckFile("commit")
+				}
+			}
+			disk.Fired = ""
+			remember()
+			if e.Failed() {
+				break
+			}
+			continue
+		}
 		if i == faultStep {
 			disk.PageSize = ps
 			disk.Plan = &sim.FaultPlan{K: c.Params["sync_fault"] - 1, Kind: "eio", Only: "fdatasync"}
